@@ -474,6 +474,31 @@ package regclient
 //@ func (*RegClient).imageImportOCIHandleManifest{$1,$2,$3}
 //@   prop C09
 //@   on-call mapupdate:handlers: $handlerRegistered = true
+// The finish handler of a manifest read from the archive pushes it by its own digest into the
+// requested repository, and skips the push only when the target answers for that very digest
+// (the existence of the tag being imported onto says nothing about this manifest).
+//@ callsite (~/types/ref.Ref).SetDigest(digest)
+//@   prop C09
+//@   name SetDigest/import-finish
+//@   in ~
+//@   infunc \)\.imageImportOCIHandleManifest\$\d+$
+//@   requires by-the-manifests-own-digest: recv == caller.r && digest == string($ret(GetDescriptor, 0).Digest)
+//@ callsite (*RegClient).ManifestHead(ctx, r, opts)
+//@   prop C09
+//@   name ManifestHead/import-finish
+//@   in ~
+//@   infunc \)\.imageImportOCIHandleManifest\$\d+$
+//@   requires asks-for-this-manifest-by-digest: r == $ret(SetDigest, 0)
+//@ callsite (*RegClient).ManifestPut(ctx, r, m, opts)
+//@   prop C09
+//@   name ManifestPut/import-finish
+//@   in ~
+//@   infunc \)\.imageImportOCIHandleManifest\$\d+$
+//   (only the handler that pushes a manifest read from the archive - it captures `child` -, not
+//   the one that finally tags the selected digest)
+//@   where caller.child || !caller.child
+//@   requires pushes-this-manifest-by-digest: r == $ret(SetDigest, 0) && m == caller.m
+//@   requires only-when-the-target-lacks-it: $ret(ManifestHead, 1) != nil
 //@ ghost $tarReadOK bool
 //@ func (*RegClient).ImageImport(ctx, r, rs, opts) (err)
 //@   prop C09
